@@ -89,6 +89,10 @@ type sig struct {
 
 var sigs = map[string]sig{}
 
+// needsNamed: functions that contain a type switch on the type parameter, and their callers: their Lean definitions take
+// the module variable `named_` ("T is a defined type, not one of the predeclared integer types")
+var needsNamed = map[string]bool{}
+
 // package-level constants: name -> (Lean text, type; "lit" for untyped constants)
 type constDef struct {
 	text string
@@ -182,6 +186,11 @@ func (t *tr) callText(e *ast.CallExpr) (string, sig, bool) {
 		kinds = append(kinds, k)
 	}
 	parts := []string{leanFn(name)}
+	namedAt := -1
+	if needsNamed[name] {
+		namedAt = len(parts)
+		parts = append(parts, "false") // a concrete type argument is a predeclared type; replaced below when it is the caller's T
+	}
 	targ := ty("")
 	if sg.generic {
 		if targExpr != nil {
@@ -205,6 +214,9 @@ func (t *tr) callText(e *ast.CallExpr) (string, sig, bool) {
 		}
 		if targ == "T" && !t.gen {
 			t.fail(e, "type argument T outside a generic function")
+		}
+		if targ == "T" && namedAt >= 0 {
+			parts[namedAt] = "named_"
 		}
 		parts = append(parts, leanTy(targ))
 	} else if targExpr != nil {
@@ -234,6 +246,7 @@ func (t *tr) callText(e *ast.CallExpr) (string, sig, bool) {
 	if len(parts) == 1 {
 		return leanFn(name), sg, true
 	}
+	_ = namedAt
 
 	return "(" + strings.Join(parts, " ") + ")", sg, true
 }
@@ -500,6 +513,17 @@ func (t *tr) expr(e ast.Expr) (string, ty) {
 			}
 		}
 	case *ast.BinaryExpr:
+		if x, ok := e.X.(*ast.Ident); ok && (e.Op == token.NEQ || e.Op == token.EQL) {
+			if y, ok := e.Y.(*ast.Ident); ok && y.Name == "nil" {
+				if con, tracked := t.errVar[x.Name]; tracked {
+					if (con == "nil") == (e.Op == token.EQL) {
+						return "true", "bool"
+					}
+
+					return "false", "bool"
+				}
+			}
+		}
 		a, ka := t.expr(e.X)
 		b, kb := t.expr(e.Y)
 		switch e.Op {
@@ -577,6 +601,17 @@ func (t *tr) expr(e ast.Expr) (string, ty) {
 			return fmt.Sprintf("(decide (%s ≤ %s))", a, b), "bool"
 		case token.GEQ:
 			return fmt.Sprintf("(decide (%s ≥ %s))", a, b), "bool"
+		}
+	case *ast.TypeAssertExpr:
+		// any(e).(X) inside the arm of a type switch where T is X: the value itself
+		if call, ok := e.X.(*ast.CallExpr); ok && len(call.Args) == 1 && e.Type != nil {
+			if id, ok := call.Fun.(*ast.Ident); ok && (id.Name == "any") {
+				if to, ok := t.tyName(e.Type); ok && isIntTy(to) {
+					s, _ := t.expr(call.Args[0])
+
+					return fmt.Sprintf("(%s.wrap %s)", leanTy(to), s), to
+				}
+			}
 		}
 	case *ast.SelectorExpr:
 		if pk, ok := e.X.(*ast.Ident); ok && pk.Name == "math" {
@@ -909,6 +944,85 @@ func (t *tr) block(stmts []ast.Stmt, depth int, k func(depth int) string) string
 		}
 
 		return fmt.Sprintf("%slet %s : %s := %s\n", ind(depth), leanName(vs.Names[0].Name), ann, e) + cont(depth)
+	case *ast.TypeSwitchStmt:
+		// `switch [v :=] any(x).(type)` on a value of the type parameter: a case names predeclared types, which a defined type
+		// (`type Amount uint64`) does not match - the module variable `named_` says whether T is a defined type
+		var subject ast.Expr
+		bind := ""
+		switch a := s.Assign.(type) {
+		case *ast.AssignStmt:
+			if len(a.Lhs) == 1 && len(a.Rhs) == 1 {
+				if id, ok := a.Lhs[0].(*ast.Ident); ok {
+					bind = id.Name
+				}
+				subject = a.Rhs[0]
+			}
+		case *ast.ExprStmt:
+			subject = a.X
+		}
+		ta, ok := subject.(*ast.TypeAssertExpr)
+		var inner ast.Expr
+		if ok && ta.Type == nil {
+			if call, ok := ta.X.(*ast.CallExpr); ok && len(call.Args) == 1 {
+				if id, ok := call.Fun.(*ast.Ident); ok && id.Name == "any" {
+					inner = call.Args[0]
+				}
+			}
+		}
+		if s.Init != nil || inner == nil || !t.gen {
+			t.fail(s, "unsupported type switch")
+
+			return ""
+		}
+		val, vk := t.expr(inner)
+		if vk != "T" {
+			t.fail(s, "type switch on a value that is not of the type parameter")
+
+			return ""
+		}
+		if _, shadows := t.env[bind]; bind != "" && shadows {
+			t.fail(s, "type switch shadows "+bind)
+		}
+		t.copies++
+		if t.copies > 64 {
+			t.fail(s, "too many duplicated continuations")
+
+			return ""
+		}
+		var arms []string
+		deflt := cont(depth + 1)
+		saved := t.snapshot()
+		for _, c := range s.Body.List {
+			cc := c.(*ast.CaseClause)
+			if cc.List == nil {
+				deflt = t.block(cc.Body, depth+1, cont)
+				t.restore(saved)
+
+				continue
+			}
+			var conds []string
+			var kinds []ty
+			for _, te := range cc.List {
+				k, ok := t.tyName(te)
+				if !ok || !isIntTy(k) || k == "T" || k == "int" || k == "uint" || k == "uintptr" {
+					t.fail(te, "unsupported type in a type switch")
+
+					continue
+				}
+				kinds = append(kinds, k)
+				conds = append(conds, fmt.Sprintf("(decide (T = %s))", leanTy(k)))
+			}
+			pre := ""
+			if bind != "" && bind != "_" && len(kinds) == 1 {
+				t.env[bind] = kinds[0]
+				pre = fmt.Sprintf("%slet %s : Int := %s\n", ind(depth+1), leanName(bind), val)
+			}
+			body := t.block(cc.Body, depth+1, cont)
+			t.restore(saved)
+			arms = append(arms, fmt.Sprintf("if ((!named_) && (%s)) then\n%s%s%selse ", strings.Join(conds, " || "), pre, body, ind(depth)))
+		}
+
+		return ind(depth) + strings.Join(arms, "") + "\n" + deflt
 	case *ast.SwitchStmt:
 		// expression switch without fallthrough / break: an if / else-if chain
 		if s.Init != nil {
@@ -1006,9 +1120,46 @@ func (t *tr) block(stmts []ast.Stmt, depth int, k func(depth int) string) string
 				txt, sg, _ := t.callText(call)
 				v, ev := s.Lhs[0].(*ast.Ident), s.Lhs[1].(*ast.Ident)
 				if len(rest) == 0 || !isErrCheck(rest[0], ev.Name) {
-					t.fail(s, "result of a (T, error) call must be followed by `if err != nil { … return … }`")
+					// general form: the rest of the block is translated once per answer of the callee; `err` is a known constant
+					// in each copy (`return v, err`, `if err != nil`, `err == nil` are decided), the value is 0 with an error
+					if t.errVar == nil {
+						t.errVar = map[string]string{}
+					}
+					t.copies += 3
+					if t.copies > 64 {
+						t.fail(s, "too many duplicated continuations")
 
-					return ""
+						return ""
+					}
+					gen := func(con string, isOk bool) string {
+						saved := t.snapshot()
+						prev, had := t.errVar[ev.Name]
+						t.errVar[ev.Name] = con
+						pre := ""
+						if v.Name != "_" {
+							t.env[v.Name] = sg.resTy
+							if !isOk {
+								pre = fmt.Sprintf("%slet %s : Int := (0 : Int)\n", ind(depth+1), leanName(v.Name))
+							}
+						}
+						b := t.block(rest, depth+1, k)
+						if had {
+							t.errVar[ev.Name] = prev
+						} else {
+							delete(t.errVar, ev.Name)
+						}
+						t.restore(saved)
+
+						return pre + b
+					}
+					ov, dz, okArm := gen("Res.overflow", false), gen("Res.divzero", false), gen("nil", true)
+					pat := "_"
+					if v.Name != "_" {
+						pat = leanName(v.Name)
+					}
+
+					return fmt.Sprintf("%smatch %s with\n%s| Res.overflow =>\n%s%s| Res.divzero =>\n%s%s| Res.panic => %s\n%s| Res.ok %s =>\n%s",
+						ind(depth), txt, ind(depth), ov, ind(depth), dz, ind(depth), t.wrapRet("Res.panic"), ind(depth), pat, okArm)
 				}
 				errBody := rest[0].(*ast.IfStmt).Body.List
 				arm := func(con string) string {
@@ -1417,6 +1568,12 @@ func (t *tr) ret(s *ast.ReturnStmt) string {
 	}
 	if id, ok := s.Results[1].(*ast.Ident); ok {
 		if con, ok := t.errVar[id.Name]; ok {
+			if con == "nil" { // the callee answered without error in this copy of the block
+				e, _ := t.expr(s.Results[0])
+
+				return "Res.ok " + e
+			}
+
 			return con // the callee's error is passed on unchanged
 		}
 	}
@@ -1634,6 +1791,48 @@ func main() {
 					errHelpers[fd.Name.Name] = errHelperDef{res, errToks(fset, r.Results[0], nil)}
 				}
 			}
+		}
+	}
+	// functions with a type switch and, transitively, their callers take the module variable `named_`
+	{
+		callees := map[string]map[string]bool{}
+		for _, d := range f.Decls {
+			fd, ok := d.(*ast.FuncDecl)
+			if !ok || fd.Recv != nil || fd.Body == nil {
+				continue
+			}
+			callees[fd.Name.Name] = map[string]bool{}
+			ast.Inspect(fd.Body, func(n ast.Node) bool {
+				switch n := n.(type) {
+				case *ast.TypeSwitchStmt:
+					needsNamed[fd.Name.Name] = true
+				case *ast.CallExpr:
+					if name, _, ok := calleeOf(n); ok {
+						if _, isFn := sigs[name]; isFn {
+							callees[fd.Name.Name][name] = true
+						}
+					}
+				}
+
+				return true
+			})
+		}
+		for changed := true; changed; {
+			changed = false
+			for fn, cs := range callees {
+				if needsNamed[fn] || !sigs[fn].generic {
+					continue // a non-generic caller instantiates with predeclared types: it passes `false`
+				}
+				for c := range cs {
+					if needsNamed[c] {
+						needsNamed[fn] = true
+						changed = true
+					}
+				}
+			}
+		}
+		if len(needsNamed) > 0 {
+			out.WriteString("-- `true` when the type argument is a defined type (`type Amount uint64`), which no case of a type switch over the predeclared types matches\nvariable (named_ : Bool)\n\n")
 		}
 	}
 	type emitted struct {
